@@ -656,8 +656,9 @@ structure ALR where
 
 def ALR.init : ALR := ⟨false, false, none, COMMA⟩
 
-/-- the quote-character bookkeeping of `_dense_simple` (note: both tests read the value
-`self._quotechar` had on entry).  `none` = switch to the fallback parser. -/
+/-- the quote-character bookkeeping of `_dense_simple` (the second test reads the local `quotechar`
+as the first test left it — since the repair of C13-F13 the first branch updates the local too).
+`none` = switch to the fallback parser. -/
 def simpleQuote (qc : Option Nat) (line : Text) : Option (Option Nat) :=
   let hasDq := line.contains DQ
   let hasSq := line.contains SQ
@@ -666,7 +667,7 @@ def simpleQuote (qc : Option Nat) (line : Text) : Option (Option Nat) :=
   match afterDq with
   | none => none
   | some q1 =>
-    if hasSq then (if qc = some SQ then some q1 else if qc = none then some (some SQ) else none) else some q1
+    if hasSq then (if q1 = some SQ then some q1 else if q1 = none then some (some SQ) else none) else some q1
 
 /-- `_dense_simple` -/
 def arffSimple (n : Nat) (s : ALR) (line : Text) : Except Err (ALR × List Text) :=
